@@ -27,6 +27,14 @@ type State struct {
 
 func newState() *State {
 	a := mkVar("alloc0", sortMath)
+	defer func() {}()
+	st0 := &State{env: map[types.Object]Value{}, glob: map[string]Value{}, heap: map[string]*Term{}, famGen: map[string]int{}, alloc: a, alloc0: a, ghost: map[string]Value{}}
+	st0.pc = append(st0.pc, mkCmp("le", mkInt(sortMath, 0), a))
+	return st0
+}
+
+func newStateUnused() *State {
+	a := mkVar("alloc0", sortMath)
 	return &State{env: map[types.Object]Value{}, glob: map[string]Value{}, heap: map[string]*Term{}, famGen: map[string]int{}, alloc: a, alloc0: a, ghost: map[string]Value{}}
 }
 
@@ -209,6 +217,9 @@ type LValue struct {
 
 func (lv *LValue) typ() types.Type {
 	if len(lv.steps) == 0 {
+		if lv.kind == lvMapElem {
+			return lv.rootT.Underlying().(*types.Map).Elem()
+		}
 		return lv.rootT
 	}
 	return lv.steps[len(lv.steps)-1].t
